@@ -76,7 +76,8 @@ class MemMapWorld(World):
                        "csr.Bridge constructor (freeze-by-use)")
     stub_components = ("resources are inert wiring.Component / csr.Register objects",)
     fault_kinds = ("abandoned_query", "equal_but_distinct_object", "rejected_call", "invalid_argument", "overlap_explicit", "out_of_bounds",
-                   "duplicate_object", "name_conflict", "add_after_freeze", "bad_window")
+                   "duplicate_object", "name_conflict", "add_after_freeze", "bad_window",
+                   "explicit_address_aimed_at_an_existing_item")
     assumptions = (
         "no clock and no concurrency exist for these properties: 'simulation' is sequential "
         "model-based conformance over seeded call histories with rejected calls as faults",
@@ -110,7 +111,7 @@ class MemMapWorld(World):
                          "regs": rng.chance(0.2)})
         return {"maps": maps}
 
-    def _name(self, rng):
+    def _name(self, rng, prop=None):
         pool = NAME_PARTS if not rng.chance(0.2) else LONG_PARTS
         if rng.chance(0.06):
             pool = ODD_PARTS
@@ -118,7 +119,7 @@ class MemMapWorld(World):
             # a very deep hierarchy (see gen_ops for the deliberate pairs)
             return ["lvl"] * rng.choice([990, 1000, 1010]) + [rng.choice(["a", "b", 0])]
         n = [rng.choice(pool) for _ in range(rng.range(1, 3))]
-        if rng.chance(0.35) and pool is NAME_PARTS:
+        if rng.chance(0.55 if prop == "C18" else 0.35) and pool is NAME_PARTS:
             n[0] = rng.choice([0, "0"])       # roots that tie under str()
         return n
 
@@ -154,7 +155,10 @@ class MemMapWorld(World):
                     addr = None if rng.chance(0.6) else rng.range(-1, (1 << aw) + 1)
                 op = {"k": "res", "m": m, "size": size, "addr": addr,
                       "align": None if rng.chance(0.6) else rng.range(0, 3),
-                      "name": self._name(rng), "obj": -1}
+                      "name": self._name(rng, prop), "obj": -1}
+                if rng.chance(0.08) and not config["maps"][m].get("huge"):
+                    op["addr_rel"] = [rng.below(8), rng.choice([1, 1, 2, 3, -1, -1, -2, -3])]
+                    op["size"] = rng.choice([1, 2, 3, 4])
                 if rng.chance(0.08):
                     op["twin"] = rng.below(8)         # a distinct object that compares equal
                 if rng.chance(0.2):
@@ -180,7 +184,7 @@ class MemMapWorld(World):
             else:
                 w = rng.below(nm)
                 op = {"k": "win", "m": m, "w": w,
-                      "name": None if rng.chance(0.55 if prop == "C18" else 0.35) else self._name(rng),
+                      "name": None if rng.chance(0.55 if prop == "C18" else 0.35) else self._name(rng, prop),
                       "addr": None if rng.chance(0.6) else rng.range(0, 1 << aw),
                       "sparse": rng.choice([None, None, False, True])}
                 if rng.chance(0.04):
@@ -435,6 +439,13 @@ class MemMapWorld(World):
                 continue
             if k == "res":
                 bad = op.get("bad")
+                if op.get("addr_rel") is not None and mdl.items:
+                    # an explicit address aimed at an item that is already there: just inside its
+                    # start, or so that the request straddles its end
+                    it_ = sorted(mdl.items, key=lambda x_: x_["start"])[int(op["addr_rel"][0]) % len(mdl.items)]
+                    o_ = int(op["addr_rel"][1])
+                    op = dict(op, addr=(it_["start"] + o_) if o_ >= 0 else max(0, it_["end"] + o_))
+                    stats.fault("explicit_address_aimed_at_an_existing_item")
                 size, addr, pal, name = op.get("size", 1), op.get("addr"), op.get("align"), \
                     op.get("name", ["a"])
                 oi = op.get("obj", -1)
